@@ -226,19 +226,28 @@ func (i *Index) AddDesc(d Descriptor, opts ...IndexOpt) {
 			}
 		}
 	}
-	// search for matching or compatible entry
+	// search for matching or compatible entry, an entry that already carries the tag or referrer is preferred
+	compat := -1
 	for mi, md := range i.Manifests {
 		if md.Digest == d.Digest {
 			if tag == "" && referrer == "" {
 				return
 			}
-			if md.Annotations == nil ||
-				((tag == "" || md.Annotations[AnnotRefName] == "" || md.Annotations[AnnotRefName] == tag) &&
-					(referrer == "" || md.Annotations[AnnotReferrerSubject] == "" || md.Annotations[AnnotReferrerSubject] == referrer)) {
+			if md.Annotations != nil &&
+				((tag != "" && md.Annotations[AnnotRefName] == tag) || (referrer != "" && md.Annotations[AnnotReferrerSubject] == referrer)) {
 				i.Manifests[mi] = d
 				return
 			}
+			if compat < 0 && (md.Annotations == nil ||
+				((tag == "" || md.Annotations[AnnotRefName] == "") &&
+					(referrer == "" || md.Annotations[AnnotReferrerSubject] == ""))) {
+				compat = mi
+			}
 		}
+	}
+	if compat >= 0 {
+		i.Manifests[compat] = d
+		return
 	}
 	// append entry if no match found
 	i.Manifests = append(i.Manifests, d)
